@@ -287,6 +287,8 @@ func (e *Env) typeByName(t string) (string, types.Type) {
 		return "Ctx", nil
 	case "error":
 		return "Int", types.Universe.Lookup("error").Type()
+	case "iface":
+		return "Iface", types.NewInterfaceType(nil, nil)
 	}
 	if strings.HasPrefix(t, "[]") {
 		s, et := e.typeByName(t[2:])
@@ -782,12 +784,18 @@ func (e *Env) callExpr(n *ECall) Val {
 			if typ == nil {
 				return e.fail("dyn: unknown type")
 			}
+			if v.S != "Iface" {
+				return v
+			}
 			return fc.mkVal(typ, fc.B.Unbox(typ, "(i_pl "+v.T+")"))
 		case "isType":
 			v := argv(0)
 			_, typ := e.typeByName(n.Args[1].String())
 			if typ == nil {
 				return e.fail("isType: unknown type")
+			}
+			if v.S != "Iface" {
+				return boolVal(strconv.FormatBool(v.Typ != nil && types.Identical(v.Typ, typ)))
 			}
 			return boolVal(eq("(i_tag "+v.T+")", fc.B.Tag(typ)))
 		}
